@@ -39,4 +39,8 @@ CLAIMED = {
         'text': 'Lean theorems: decode_encode (every record with any hash bytes, u64 device/inode/size, i128 mtime and any path incl. spaces is parsed back exactly from its manifest line; decimal and hex printing/parsing modelled at character level), fingerprint_roundtrip, record_truthful (path/fingerprint/size/hash of a record equal the source file\'s, hash inherited only on the short-cut), records_paths (one record per file in walk order). Tied to the code by decoding every produced backup with libzstd(ctypes)+tarfile+hashlib only (lines <-> regular entries one-to-one in order, unique prefix hash, extern empty, absolute resolved paths, 0600/0700 modes, truthfulness against the source tree) and by pushing generated and adversarial lines through the real MetadataWriter/zstd/MetadataReader against the model.',
         'note': TRUST + 'tar/zstd byte formats are the crates\' (decoded independently, not modelled); Rust integer Display/FromStr as modelled (exercised incl. +sign, leading zeros, range limits).',
     },
+    'C13': {
+        'text': 'Lean theorems: inspect_iff / verify_iff (a group passes verification iff every manifest decodes completely, records at least one file and every non-empty extern has an earlier unique of its hash in the group — the right-hand side is the declarative Resolvable of C02), listing_ok_iff_no_error (the listing verdict is cleared exactly when an error-class line is logged), inspect_ok_of_resolvable (storages produced by vsb runs alone verify, given non-empty manifests — the proviso is known finding F6), age_iff / age_no_threshold (alarm iff no backup at all or newest backup at least max old; newest = last backup of the last non-empty group). Tied to the code by running the real get_backup_groups(true) on storages after every run of random histories and on 20 kinds of manifest-level corruption, against the compiled model and an independent oracle, and the real check_backups/parse_duration on an age grid around the boundary under a faked clock.',
+        'note': TRUST + 'faked CLOCK_REALTIME and TZ=UTC; ASCII digits; the prefix of a partially decodable manifest is not compared (only the verdict); kill/fault histories are covered by C03. Known finding F6 (empty manifest) is listed in known-findings.json.',
+    },
 }
